@@ -20,8 +20,14 @@ ASSUMPTIONS = [
     'reference strings are modelled in parsed form (stage, producer, file, method); the parser is exercised by the '
     'correspondence only (C09 is about it); validation errors of instantiate_dowhile are not modelled (documents load)',
     'no replication inside the loop; the (stage, name) pairs of the looped components are pairwise distinct (the same '
-    'name may be used in two stages), names contain no "#" and differ from binding and outside names; '
-    ':loopref/:loopoutput are used by consumers outside the loop only',
+    'name may be used in two stages), names contain no "#" and differ from binding names; components outside the '
+    'loop (bound producers, producers referenced directly from inside the loop, consumers) may have the name of a '
+    'looped component of another stage; :loopref/:loopoutput are used by consumers outside the loop only',
+    'Controller-driven cases: a real experiment.runtime.control.Controller over real ComponentState objects '
+    'instantiates the iterations (Controller._instantiate_next_dowhile_iteration) and inspects the workflow '
+    '(initialise / generate_status_report_for_nodes / _comp_get_active_predecessors / get_node_state / '
+    '_true_nodes_from_identifiers / _input_dependencies_satisfied); no task is launched: Controller._schedule, '
+    'finishedCheck and the resolution done by a running consumer are not exercised',
     'files read by :output/:loopoutput are created by the harness with contents naming their producer',
     'command-line arguments of RANDOMLY generated components never contain two references one of which is a '
     'word-bounded substring of the other: the sequential regular-expression substitution of rewrite_all_references '
@@ -35,6 +41,7 @@ COMP_NAMES = ['a', 'ab', 'a-b', 'b', 'stop', 'x1', 'n0', 'add', 'agg2', 'c_d', '
 BIND_NAMES = ['b0', 'in', 'number', 'p-q', 'Bq']
 SRC_NAMES = ['src0', 'gen', 'src-1']
 OUT_NAMES = ['rep', 'obs']
+MID_NAMES = ['mid', 'aux-2']
 FILES = ['f', 'g.txt']
 KS_QUICK = [0, 1, 2, 9, 10, 11, 12]
 KS_THOROUGH = [0, 1, 2, 3, 9, 10, 11, 12, 19, 20, 21, 25]
@@ -57,12 +64,37 @@ def gen_case(rng, k):
         if pairs:
             i, j = rng.choice(pairs)
             names[j] = names[i]
+    # component ids are (stage, name) pairs: a component OUTSIDE the loop may have the name of a looped component
+    # of another stage (producers below/at the import stage that are bound to input bindings, producers in the
+    # stages of the loop that are referenced directly from inside the loop, consumers after the loop)
+    looped_abs = set((S + st, n) for st, n in zip(stages, names))
+    clash = rng.random() < 0.4
+    clash_srcs = []
+    if clash:
+        nm = rng.choice(names)
+        free = [st for st in range(S + 1) if (st, nm) not in looped_abs]
+        if free:
+            at = rng.randrange(len(srcs))
+            srcs[at] = [nm, rng.choice(free)]
+            clash_srcs.append(srcs[at])
+    low = list(srcs)                # producers that the importing component (stage S) may bind
+    if rng.random() < 0.45:
+        # a producer in one of the stages of the loop: referenced DIRECTLY by looped components
+        st = S + rng.randint(0, max(stages))
+        pool = list(MID_NAMES)
+        if clash:
+            pool += [n for n in names if (st, n) not in looped_abs] * 2
+        nm = rng.choice(pool)
+        if [nm, st] not in srcs:
+            srcs.append([nm, st])
+            if st <= S:
+                low.append([nm, st])
     nb = rng.choice([0, 1, 1, 2, 2, 3])
     ibind = [[b, rng.choice(['ref', 'output', 'output', 'copy'])] for b in rng.sample(BIND_NAMES, nb)]
     types = dict(ibind)
     binds = []
     for b, _t in ibind:
-        s = rng.choice(srcs)
+        s = rng.choice(clash_srcs) if clash_srcs and rng.random() < 0.5 else rng.choice(low)
         binds.append([b, [s[1], s[0], rng.choice(['', '', '', 'f', 'g.txt'])]])
     loopb = []
     for b, _t in ibind:
@@ -89,6 +121,13 @@ def gen_case(rng, k):
                 if st == stages[idx] and rng.random() < 0.5:
                     st = None
                 refs.append(['C', st, names[j], rng.choice(['', '', 'f', 'g.txt']), rng.choice(['ref', 'output', 'copy'])])
+        for nm, ast in srcs:
+            # direct reference to a component outside the loop (document stage = workflow stage - import stage)
+            if S <= ast <= S + stages[idx] and rng.random() < 0.3:
+                st = ast - S
+                if st == stages[idx] and rng.random() < 0.4:
+                    st = None
+                refs.append(['C', st, nm, rng.choice(['', '', 'f']), rng.choice(['ref', 'output', 'copy'])])
         rng.shuffle(refs)
         comps.append({'name': names[idx], 'stage': stages[idx], 'refs': refs,
                       'explicit_stage': rng.random() < 0.3})
@@ -112,6 +151,9 @@ def gen_case(rng, k):
         if rng.random() < 0.4:
             s = rng.choice(srcs)
             refs.append([s[1], s[0], '', 'ref'])
+        for s in srcs:
+            if s[0] in names and rng.random() < 0.6:
+                refs.append([s[1], s[0], rng.choice(['', 'f']), rng.choice(['ref', 'output', 'copy'])])
         if not refs:
             refs.append([S + stages[0], names[0], '', 'ref'])
         # one reference per (producer, file, method)
@@ -120,14 +162,35 @@ def gen_case(rng, k):
             if tuple(r) not in seen:
                 seen.add(tuple(r))
                 uniq.append(r)
-        outs.append({'name': n, 'stage': top + rng.choice([0, 1, 1, 2]), 'refs': uniq})
+        ost = top + rng.choice([0, 1, 1, 2])
+        if clash and rng.random() < 0.4:
+            free = [x for x in names if (ost, x) not in looped_abs and [x, ost] not in srcs and
+                    not any(o['name'] == x and o['stage'] == ost for o in outs)]
+            if free:
+                n = rng.choice(free)
+        outs.append({'name': n, 'stage': ost, 'refs': uniq})
     # FlowIR wants the stage indices of a package to be 0..n-1 without gaps: fill the holes with idle components
     used = set(s[1] for s in srcs) | set(S + st for st in stages) | set(o['stage'] for o in outs)
     for st in range(max(used) + 1):
         if st not in used:
             srcs.append(['fill%d' % st, st])
-    return {'S': S, 'dwname': rng.choice(['dw', 'loop-1']), 'srcs': srcs, 'comps': comps, 'ibind': ibind,
+    case = {'S': S, 'dwname': rng.choice(['dw', 'loop-1']), 'srcs': srcs, 'comps': comps, 'ibind': ibind,
             'binds': binds, 'loopb': loopb, 'cond': cond, 'outs': outs, 'k': k}
+    # who drives the iterations: the bare WorkflowGraph, or a real Controller (initialised at a stage not after the
+    # loop) that also looks at the workflow (status report / dependency analysis) between or after the iterations
+    if rng.random() < 0.45:
+        case['ctl'] = {'start': rng.randint(0, S), 'inspect': rng.choice(['end', 'end', 'each', 'each', 'none'])}
+    return case
+
+
+def looped_ids(case):
+    return set((case['S'] + c['stage'], c['name']) for c in case['comps'])
+
+
+def name_clashes(case):
+    """outside components that have the name of a looped component (of another stage)"""
+    names = set(c['name'] for c in case['comps'])
+    return [s for s in case['srcs'] if s[0] in names] + [[o['name'], o['stage']] for o in case['outs'] if o['name'] in names]
 
 
 def duplicate_refs(case):
@@ -179,6 +242,34 @@ def overlap_case(k):
             'loopb': [['b0', [None, 'a-b', '']]], 'cond': [None, 'stop', 'f'],
             'outs': [{'name': 'rep', 'stage': 2, 'refs': [[1, 'b', '', 'ref']]}],
             'k': k}
+
+
+def clash_case(k, ctl=None):
+    """boundary case of the name clashes between looped and outside components: 'work' is looped (stage 1 of the
+    workflow), stage0.work and stage2.work are plain components; the looped work reads stage0.work through a
+    binding that is NOT loop-carried and stage1.mid directly; the looped stop (next stage) reads the looped work and
+    the plain stage2.work; a consumer named 'stop' after the loop reads all of them (coq: Loop.Proofs.ex_doc4)"""
+    case = {'S': 1, 'dwname': 'dw', 'srcs': [['src0', 0], ['work', 0], ['mid', 1], ['work', 2]],
+            'comps': [{'name': 'work', 'stage': 0,
+                       'refs': [['B', 'b0', ''], ['B', 'base', ''], ['C', None, 'mid', '', 'ref']]},
+                      {'name': 'stop', 'stage': 1,
+                       'refs': [['C', 0, 'work', '', 'output'], ['C', 1, 'work', 'f', 'ref']]}],
+            'ibind': [['b0', 'output'], ['base', 'ref']],
+            'binds': [['b0', [0, 'src0', '']], ['base', [0, 'work', '']]],
+            'loopb': [['b0', [0, 'work', '']]], 'cond': [1, 'stop', 'f'],
+            'outs': [{'name': 'stop', 'stage': 3,
+                      'refs': [[1, 'work', '', 'ref'], [0, 'work', '', 'ref'], [2, 'work', '', 'output'],
+                               [1, 'work', '', 'loopref'], [1, 'work', 'f', 'loopoutput'], [2, 'stop', '', 'loopref']]}],
+            'k': k}
+    if ctl:
+        case['ctl'] = ctl
+    return case
+
+
+def with_ctl(case, start, inspect):
+    case = dict(case)
+    case['ctl'] = {'start': start, 'inspect': inspect}
+    return case
 
 
 F5C = 'overlapping_reference_texts_on_a_looped_command_line'
@@ -262,6 +353,7 @@ def expected_refs(case, c, i):
     types = dict(case['ibind'])
     binds = dict((b, v) for b, v in case['binds'])
     loopb = dict((b, v) for b, v in case['loopb'])
+    looped = looped_ids(case)
     out = []
     for r in c['refs']:
         if r[0] == 'B':
@@ -274,7 +366,10 @@ def expected_refs(case, c, i):
                 out.append(c05_impl.ref_str(st, prod, f or bf, types[b]))
         else:
             _t, st, name, f, m = r
-            out.append(c05_impl.ref_str(S + (c['stage'] if st is None else st), '%d#%s' % (i, name), f, m))
+            ast = S + (c['stage'] if st is None else st)
+            # the component with that STAGE and name: an instance of the same iteration if it is looped, else the
+            # component outside the loop as it is
+            out.append(c05_impl.ref_str(ast, ('%d#%s' % (i, name)) if (ast, name) in looped else name, f, m))
     return out
 
 
@@ -325,6 +420,10 @@ def predicate(case, obs):
             st, name, f, m = r
             c = byid.get((st - S, name))
             if c is None:
+                # a component outside the loop, whatever its name: itself
+                got = obs['resolve']['%s|%s' % (o['name'], c05_impl.ref_str(*r))]
+                if '#' in got or not re.search(r'(stage%d[/.])%s(/|\)|$)' % (st, re.escape(name)), got):
+                    bad.append('a reference to a component outside the loop does not resolve to that component')
                 continue
             got = obs['resolve']['%s|%s' % (o['name'], c05_impl.ref_str(*r))]
             if m in ('loopref', 'loopoutput'):
@@ -337,6 +436,20 @@ def predicate(case, obs):
             else:
                 if not re.search(r'[/.]%d#%s(/|\)|$)' % (k, re.escape(name)), got):
                     bad.append('a reference from outside the loop does not resolve to the numerically highest iteration')
+    # the Controller looked at the workflow: nothing may have changed, and what it saw is the placeholders
+    if obs.get('inspection_changed'):
+        bad.append('a read-only inspection of the workflow by the Controller (initialise / status report / dependency '
+                   'analysis) changed the %s of the workflow graph' % ', '.join(obs['inspection_changed']))
+    if obs.get('ctl'):
+        cc = byid[(case['cond'][0] or 0, case['cond'][1])]
+        for c in case['comps']:
+            v = obs['ctl'].get('stage%d.%s' % (S + c['stage'], c['name']))
+            inst_c = [node(c, i) for i in range(k + 1)]
+            if v is None or v['all'] != sorted(inst_c) or v['latest'] != [node(c, k)] or v['subjects'] or \
+                    v['producers'] != sorted(set(inst_c + [node(cc, k)])):
+                bad.append('the Controller does not see a placeholder as the instances 0..k of its component (latest: '
+                           'k) waiting for them and for the condition of iteration k')
+                break
     cn = case['cond'][1]
     want_cond = c05_impl.ref_str(S + (case['cond'][0] or 0), '%d#%s' % (k, cn), case['cond'][2], 'output')
     if obs['state']['currentIteration'] != k or obs['state']['currentCondition'] != want_cond:
@@ -377,7 +490,7 @@ def c_case(case, obs):
     sl = lambda xs: clist(xs, cstr)
     resolve = [obs['resolve']['%s|%s' % (o['name'], c05_impl.ref_str(*r))] for o in case['outs'] for r in o['refs']]
     mp = [obs['map_latest'].get('stage%d.%s' % (case['S'] + c['stage'], c['name'])) for c in case['comps']]
-    o = '(mk_obs %s %s %s %s %s %s %s %s)' % (
+    o = '(mk_obs %s %s %s %s %s %s %s %s %s)' % (
         clist(obs['steps'], lambda s: cpair(cN(s[0]), sl(s[1]))),
         sl(obs['nodes']),
         clist(sorted(obs['insts'].items()),
@@ -387,7 +500,9 @@ def c_case(case, obs):
               lambda kv: cpair(cstr(kv[0]), cpair(cstr(kv[1]['latest']), sl(kv[1]['represents'])))),
         cpair(cstr(obs['state']['currentCondition']), cN(obs['state']['currentIteration'])),
         sl(resolve),
-        clist(mp, lambda x: copt(x, cstr)))
+        clist(mp, lambda x: copt(x, cstr)),
+        clist(sorted(obs.get('ctl', {}).items()),
+              lambda kv: cpair(cstr(kv[0]), cpair(sl(kv[1]['producers']), cpair(sl(kv[1]['all']), sl(kv[1]['latest']))))))
     return '(mk_case %s %s %s %s)' % (doc, clist(outs), cnat(case['k']), o)
 
 
@@ -424,6 +539,20 @@ def explore(ctx, cases, parallel=True):
             ctx.count('looped command line with overlapping reference texts (class of the open finding F5c)')
         if len(set((c['stage'], c['name']) for c in case['comps'])) > len(set(c['name'] for c in case['comps'])):
             ctx.count('two looped components with the same name in different stages')
+        if name_clashes(case):
+            ctx.count('outside component with the name of a looped component (other stage)')
+            lids = looped_ids(case)
+            if any(r[0] == 'B' and [dict(case['binds'])[r[1]][1], dict(case['binds'])[r[1]][0]] in name_clashes(case)
+                   for c in case['comps'] for r in c['refs']) or \
+                    any(r[0] == 'C' and r[2] in [x[0] for x in name_clashes(case)] and
+                        (case['S'] + (c['stage'] if r[1] is None else r[1]), r[2]) not in lids
+                        for c in case['comps'] for r in c['refs']):
+                ctx.count('... referenced from inside the loop (binding or direct)')
+        if any(r[0] == 'C' and (case['S'] + (c['stage'] if r[1] is None else r[1]), r[2]) not in looped_ids(case)
+               for c in case['comps'] for r in c['refs']):
+            ctx.count('direct reference from inside the loop to a component outside')
+        if case.get('ctl'):
+            ctx.count('driven by a real Controller, inspect=%s' % case['ctl']['inspect'])
         for what in predicate(case, obs):
             ctx.fail({'case': case, 'observed': _brief(obs)}, what, classes)
         if 'error' in obs:
@@ -453,6 +582,8 @@ def _brief(obs):
     return {'nodes': obs['nodes'], 'state': obs['state'], 'resolve': obs['resolve'],
             'latest': dict((p, v['latest']) for p, v in obs['placeholders'].items()),
             'map_latest': obs['map_latest'], 'steps': [s[0] for s in obs['steps']],
+            'placeholders': obs['placeholders'], 'controller_view': obs.get('ctl'),
+            'inspection_changed': obs.get('inspection_changed'),
             'insts': dict((n, v['refs']) for n, v in obs['insts'].items())}
 
 
@@ -462,6 +593,12 @@ def corpus():
     out += [samename_case(2, 1), samename_case(2, 0), samename_case(11, 1), samename_case(0, None)]
     # F5c (open): reproduced on every run, whatever VERIF_SEED
     out += [overlap_case(0), overlap_case(2)]
+    # outside components with the name of a looped component; workflows driven and inspected by a real Controller
+    # (aggregate references to a looped component that does not produce the condition: 'fake_add', 'add', 'work')
+    out += [clash_case(0), clash_case(2), clash_case(11, {'start': 0, 'inspect': 'each'}),
+            with_ctl(simple_case(2), 0, 'end'), with_ctl(simple_case(0), 1, 'end'), with_ctl(simple_case(11), 1, 'each'),
+            with_ctl(simple_case(3), 0, 'none'), with_ctl(samename_case(2, 1), 0, 'end'),
+            with_ctl(samename_case(3, 0), 1, 'each')]
     d = os.path.join(os.path.dirname(os.path.abspath(__file__)), 'corpus', 'c05')
     if os.path.isdir(d):
         for f in sorted(os.listdir(d)):
@@ -472,8 +609,11 @@ def corpus():
 
 def run(ctx):
     ctx.rule = ('generated DoWhile package (import stage, 1-4 looped components over up to 3 stages, input bindings '
-                'bound outside, loop bindings, internal references, condition, outside consumers with '
-                ':ref/:output/:copy/:loopref/:loopoutput) x number of further iterations k; non-trivial = k >= 2, at '
+                'bound outside, loop bindings, internal references, direct references to outside components, '
+                'condition, outside producers/consumers ~35% of which reuse the name of a looped component in '
+                'another stage, consumers with :ref/:output/:copy/:loopref/:loopoutput) x number of further '
+                'iterations k x driver (bare WorkflowGraph, or ~45% a real Controller that instantiates the '
+                'iterations and inspects the workflow after each / after the last one); non-trivial = k >= 2, at '
                 'least one loop binding and at least two looped components; distinct by the whole case')
     rng = ctx.rng
     ks = KS_QUICK if ctx.tier == 'quick' else KS_THOROUGH
